@@ -17,6 +17,7 @@ import AITB.Props.C11Traces
 import AITB.Props.C11Dyna2
 import AITB.Props.C09a
 import AITB.Props.C11Policies
+import AITB.Props.C11Extra
 import Mathlib.Tactic.NormNum
 
 namespace AITB.Learn
@@ -229,6 +230,47 @@ example : Bdd (loB (-1) (3/4)) (hiB 2 (3/4))
     intro e he
     simp only [List.mem_cons, List.mem_nil_iff, or_false] at he
     rcases he with rfl | rfl | rfl <;> (unfold EvG.ok Ev.ok; norm_num))
+
+/-! ## 5. clause 1 at λ = 0 for the evaluation learners with a SUB-stochastic target (the library's greedy policy objects) -/
+
+theorem evalStep_lam0_inv_sub (k : Kind) (hk : k ≠ .is) (lo hi γ α tol : Rat) (hlo : lo ≤ 0) (hhi : 0 ≤ hi) (A : Nat)
+    (πt πb : Nat → Nat → Rat) (hπ : SubDist A πt) (hγ0 : 0 ≤ γ) (hα0 : 0 ≤ α) (hα1 : α ≤ 1)
+    (st : List Tr × QF) (h : Lam0Inv lo hi st) (s a s1 : Nat) (r : Rat) (hc : Closed lo hi γ r) :
+    Lam0Inv lo hi (evalStep k γ α 0 tol A πt πb st.1 st.2 s a s1 r) := by
+  obtain ⟨hb, hnd⟩ := h
+  constructor
+  · rw [eval_lambda0 k hk γ α tol A πt πb st.1 st.2 hnd s a s1 r]
+    have hfun : (fun x => st.2 s1 x * πt s1 x) = (fun ai => πt s1 ai * st.2 s1 ai) := by funext x; ring
+    have hin := expectedQ_in_sub lo hi hlo hhi A πt st.2 s1 hπ hb
+    unfold expectedQ at hin
+    rw [hfun]
+    exact backup_Bdd lo hi γ α r _ st.2 s a hγ0 hα0 hα1 hc hb hin
+  · unfold evalStep; exact updateTraces_nodup _ _ _ _ _ _ _ hnd
+
+/-- zero table, cleared traces, rewards in [rmin,rmax], γ ∈ [0,1), α ∈ [0,1], any cut-off, any behaviour policy,
+    ANY sub-stochastic target (stored matrix, `QGreedyPolicy`, `EpsilonPolicy(QGreedyPolicy)` over any table), all histories -/
+theorem eval_lambda0_bounded_sub (k : Kind) (hk : k ≠ .is) (γ α tol rmin rmax : Rat) (A : Nat)
+    (πt πb : Nat → Nat → Rat) (hπ : SubDist A πt) (hγ0 : 0 ≤ γ) (hγ1 : γ < 1) (hα0 : 0 ≤ α) (hα1 : α ≤ 1)
+    (evs : List TEv) (hr : ∀ e ∈ evs, rmin ≤ e.r ∧ e.r ≤ rmax) :
+    Bdd (loB rmin γ) (hiB rmax γ) (evalRun k γ α 0 tol A πt πb evs ([], fun _ _ => 0)).2 := by
+  suffices H : ∀ st, Lam0Inv (loB rmin γ) (hiB rmax γ) st →
+      Lam0Inv (loB rmin γ) (hiB rmax γ) (evalRun k γ α 0 tol A πt πb evs st) from
+    (H _ ⟨Bdd_zero γ rmin rmax hγ1, by simp⟩).1
+  induction evs with
+  | nil => intro st h; simpa [evalRun] using h
+  | cons e es ih =>
+    intro st h
+    simp only [evalRun]
+    apply ih (fun x hx => hr x (List.mem_cons_of_mem _ hx))
+    exact evalStep_lam0_inv_sub k hk _ _ γ α tol (hull_zero γ rmin rmax hγ1).1 (hull_zero γ rmin rmax hγ1).2 A πt πb hπ hγ0 hα0 hα1
+      st h e.s e.a e.s1 e.r (hull_closed γ rmin rmax e.r hγ0 hγ1 (hr e List.mem_cons_self))
+
+theorem eval_lambda0_bounded_policies (k : Kind) (hk : k ≠ .is) (γ α tol rmin rmax : Rat) (A : Nat)
+    (kt : Nat) (εt : Rat) (hεt : 0 ≤ εt ∧ εt ≤ 1) (mat : Nat → Nat → Rat) (hmat : SubDist A mat) (tt : QF)
+    (πb : Nat → Nat → Rat) (hγ0 : 0 ≤ γ) (hγ1 : γ < 1) (hα0 : 0 ≤ α) (hα1 : α ≤ 1)
+    (evs : List TEv) (hr : ∀ e ∈ evs, rmin ≤ e.r ∧ e.r ≤ rmax) :
+    Bdd (loB rmin γ) (hiB rmax γ) (evalRun k γ α 0 tol A (polOf kt εt A mat tt) πb evs ([], fun _ _ => 0)).2 :=
+  eval_lambda0_bounded_sub k hk γ α tol rmin rmax A _ πb (polOf_subdist kt εt hεt A mat hmat tt) hγ0 hγ1 hα0 hα1 evs hr
 
 /-! ## 3. RLearning: the update as written is not Schwartz's rule (observation outside C11's quantifier) -/
 
